@@ -265,6 +265,12 @@ def check(ctx: Ctx, col: Collector, tier: str) -> None:
                                                        "`Base` in an expression anywhere in the package, `class Child(Base)` records the superclass `base.Base` (the unresolved text of the relative import) "
                                                        "instead of `pkg.base.Base`"]))
 
+    # ------------------------------------------------------------------ ATTR-TARGETS (shared code with C03)
+    col.spec("C12.ATTR-TARGETS", "the attributes of a class in the inventory are those its constructor assigns on the instance itself, recorded as instance attributes",
+             "specialisation of _parse_attributes over constructor target shapes (same obligations as C03.ATTR-TARGETS constructor-target)", floor=5)
+    from .c03 import constructor_target_obligations
+    constructor_target_obligations(ctx, col, "C12.ATTR-TARGETS")
+
     # ------------------------------------------------------------------ ATTR-DEDUP-SCOPE
     dfi = repo.function(VISITOR, f"{VCLS}._is_attribute_already_defined")
     col.touched(dfi)
